@@ -17,6 +17,7 @@ type Config struct {
 	TimeoutMS int
 	MaxPaths  int
 	MaxSteps  int64
+	MaxEvents int // solver-consulting events (forks, checks) per path
 	ReplayDir string
 	Seed      int64
 	Verbose   bool
@@ -285,7 +286,14 @@ func (e *Explorer) queryInc(q *Term, wantModel bool, extra []*Term) (SatResult, 
 
 // Decide picks one of n exhaustive alternatives (cond(k) is its condition, nil meaning "always
 // possible") and records the choice; unexplored alternatives are visited by later paths.
+func (e *Explorer) checkEventBound(what string) {
+	if len(e.events) >= e.Cfg.MaxEvents {
+		panic(&abort{abBudget, fmt.Sprintf("decision bound %d per path exceeded (%s): a loop or recursion whose bound depends on symbolic data?", e.Cfg.MaxEvents, what)})
+	}
+}
+
 func (e *Explorer) Decide(n int, cond func(k int) *Term, what string) int {
+	e.checkEventBound(what)
 	idx := len(e.events)
 	start := 0
 	if idx < len(e.script) {
@@ -357,6 +365,7 @@ func (e *Explorer) Decide(n int, cond func(k int) *Term, what string) int {
 
 // DecideValue enumerates the feasible values of a term, one per path.
 func (e *Explorer) DecideValue(x *Term, what string) uint64 {
+	e.checkEventBound(what)
 	idx := len(e.events)
 	var tried []uint64
 	if idx < len(e.script) {
@@ -405,6 +414,7 @@ func (e *Explorer) Assume(c *Term) {
 		}
 		return
 	}
+	e.checkEventBound("verifAssume")
 	idx := len(e.events)
 	if idx < len(e.script) {
 		ev := e.script[idx]
@@ -705,6 +715,9 @@ func (e *Explorer) finish(confirm func(o *Obligation) (confirmed bool, replayPat
 				o.mismatch = true
 				o.Reason = "ENGINE-MISMATCH: solver counterexample did not reproduce natively: " + note
 			}
+		case o.kind == "reach" && o.reached:
+			o.Status = "valid"
+			o.Reason = "reached on a feasible path (witness in model)"
 		case e.neFlag != "":
 			o.Status = "not-encodable"
 			o.Reason = e.neFlag
